@@ -178,7 +178,11 @@ func BF(c Case) (out Case) {
 		r := copyCase(e)
 		switch str(e, "op") {
 		case "solve":
-			model := bf.Solve(f)
+			g := f
+			if boolean(e, "neg") { // the negation of the SAME formula value (whatever earlier calls left in it shows)
+				g = bf.Not(f)
+			}
+			model := bf.Solve(g)
 			r["isNil"] = model == nil
 			dom, val := []int{}, []bool{}
 			keys := make([]string, 0, len(model))
@@ -193,7 +197,11 @@ func BF(c Case) (out Case) {
 			r["dom"], r["val"] = dom, val
 		case "dimacs":
 			var buf bytes.Buffer
-			err := bf.Dimacs(f, &buf)
+			g := f
+			if boolean(e, "neg") {
+				g = bf.Not(f)
+			}
+			err := bf.Dimacs(g, &buf)
 			r["err"] = err != nil
 			r["text"] = buf.String()
 			hv, hc := -1, -1
